@@ -1514,9 +1514,9 @@ func genCase(rt *rapid.T) Case {
 		c.Warm = rapid.Bool().Draw(rt, "warm")
 	}
 	c.CancelFirst = rapid.Bool().Draw(rt, "cancelfirst")
-	c.Ctx = rapid.SampledFrom([]string{"deadline", "cancel", "timeout", "value"}).Draw(rt, "ctx")
+	c.Ctx = rapid.SampledFrom([]string{"deadline", "cancel", "timeout", "value", "background", "todo"}).Draw(rt, "ctx")
 	c.Dead = rapid.SampledFrom([]string{"cancelled", "expired"}).Draw(rt, "dead")
-	if c.Ctx != "value" && rapid.Bool().Draw(rt, "mid") {
+	if cancellable(c.Ctx) && rapid.Bool().Draw(rt, "mid") {
 		c.Mid = rapid.IntRange(1, 8).Draw(rt, "mid.k")
 	}
 	c.Hook = rapid.SampledFrom([]string{"", "", "exec", "create", "count", "preload"}).Draw(rt, "hook")
@@ -1526,7 +1526,7 @@ func genCase(rt *rapid.T) Case {
 	if !initialized && rapid.Bool().Draw(rt, "fork") {
 		f := &Fork{}
 		f.At = rapid.SampledFrom([]string{"bound", "inner"}).Draw(rt, "fork.at")
-		f.Ctx = rapid.SampledFrom([]string{"own", "own-dead", "inherit"}).Draw(rt, "fork.ctx")
+		f.Ctx = rapid.SampledFrom([]string{"own", "own-dead", "inherit", "background", "todo"}).Draw(rt, "fork.ctx")
 		f.Form = "session"
 		if f.Ctx != "inherit" && rapid.IntRange(0, 3).Draw(rt, "fork.withcontext") == 0 {
 			f.Form = "withcontext"
@@ -1794,8 +1794,19 @@ func liveContext(kind, id string) (context.Context, context.CancelFunc) {
 		return context.WithTimeout(base, 24*time.Hour)
 	case "deadline":
 		return context.WithDeadline(base, farDeadline)
+	case "background":
+		// the literal empty contexts: no value, no deadline, never done. Binding a handle to one of them must
+		// drop whatever the handle was bound to before
+		return context.Background(), func() {}
+	case "todo":
+		return context.TODO(), func() {}
 	}
 	return base, func() {}
+}
+
+// cancellable: kinds of caller context that can be cancelled after the operation.
+func cancellable(kind string) bool {
+	return kind == "cancel" || kind == "timeout" || kind == "deadline"
 }
 
 // deadContext builds a context that is already done before the program starts.
@@ -1824,6 +1835,9 @@ func notCallers(got, caller context.Context, callerCancelled bool) string {
 	if callerCancelled && got.Err() == nil {
 		return "is still live (Err() == nil) after the caller's context was cancelled: it is not the caller's context nor derived from it"
 	}
+	if caller.Err() == nil && got.Err() != nil {
+		return fmt.Sprintf("is done (%v) although the caller's context is alive: it belongs to another, cancelled context", got.Err())
+	}
 	return ""
 }
 
@@ -1851,8 +1865,20 @@ func checkCase(c Case) (msg string, stmts int, herr error) {
 
 	live, liveCancel := liveContext(c.Ctx, id)
 	defer liveCancel()
-	other := context.WithValue(context.Background(), markerKey{}, "other-"+id)
 	childAlive := context.WithValue(context.Background(), markerKey{}, childID)
+	if c.Fork != nil {
+		switch c.Fork.Ctx {
+		case "background":
+			childAlive = context.Background()
+		case "todo":
+			childAlive = context.TODO()
+		}
+	}
+	// the "other" context (a handle is re-bound over it, foreign handles carry it) is cancelled before the
+	// contexts of the driver calls are judged: anything that kept it shows up as done
+	otherBase, otherCancel := context.WithDeadline(context.WithValue(context.Background(), markerKey{}, "other-"+id), farDeadline.Add(time.Hour))
+	defer otherCancel()
+	var other context.Context = otherBase
 
 	// judgeChild checks the driver calls the forked child made in one half. childCtx is the
 	// child's own context (nil: it inherits the parent's), childDead whether that context
@@ -1870,9 +1896,9 @@ func checkCase(c Case) (msg string, stmts int, herr error) {
 						half, e.String(), markerOf(e.Ctx), renderEvents(evs))
 				}
 				if childCtx != nil {
-					if e.Ctx == nil || e.Ctx.Value(markerKey{}) != interface{}(childID) {
+					if e.Ctx == nil || e.Ctx.Value(markerKey{}) != childCtx.Value(markerKey{}) {
 						return fmt.Sprintf("%s: driver call %s of the forked child handle received a context with marker %s, want the child's marker %s\n  driver events:\n%s",
-							half, e.String(), markerOf(e.Ctx), childID, renderEvents(evs))
+							half, e.String(), markerOf(e.Ctx), markerOf(childCtx), renderEvents(evs))
 					}
 					if why := notCallers(e.Ctx, childCtx, false); why != "" {
 						return fmt.Sprintf("%s: driver call %s of the forked child handle received a context that %s\n  driver events:\n%s", half, e.String(), why, renderEvents(evs))
@@ -1973,7 +1999,9 @@ func checkCase(c Case) (msg string, stmts int, herr error) {
 	err, spans := runProgram(d, c, live, other, childCtx)
 	evs := d.Rec.Events()
 	// the operation has finished: cancel the caller's context, every context a driver call received must follow
+	// (and cancel the context the handle was bound to before: nothing may have kept it)
 	liveCancel()
+	otherCancel()
 	for _, e := range evs {
 		if !judged(e.Kind) {
 			continue
@@ -1986,11 +2014,11 @@ func checkCase(c Case) (msg string, stmts int, herr error) {
 				stmts++
 			}
 		}
-		if e.Ctx == nil || e.Ctx.Value(markerKey{}) != interface{}(id) {
+		if e.Ctx == nil || e.Ctx.Value(markerKey{}) != live.Value(markerKey{}) {
 			return fmt.Sprintf("driver call %s received a context with marker %s, want the caller's marker %s\n  driver events:\n%s",
-				e.String(), markerOf(e.Ctx), id, renderEvents(evs)), stmts, nil
+				e.String(), markerOf(e.Ctx), markerOf(live), renderEvents(evs)), stmts, nil
 		}
-		if why := notCallers(e.Ctx, live, c.Ctx != "value"); why != "" {
+		if why := notCallers(e.Ctx, live, cancellable(c.Ctx)); why != "" {
 			return fmt.Sprintf("driver call %s received a context that carries the caller's marker but %s (caller's context kind: %s)\n  driver events:\n%s",
 				e.String(), why, c.Ctx, renderEvents(evs)), stmts, nil
 		}
@@ -2051,11 +2079,12 @@ func checkCase(c Case) (msg string, stmts int, herr error) {
 			if !judged(e.Kind) {
 				continue
 			}
-			want, wantCtx, cancelledNow := id, mctx, true
+			wantCtx, cancelledNow := mctx, true
 			if inSpan(spans, e.Seq) && !childInherits {
-				want, wantCtx, cancelledNow = childID, mchild, false
+				wantCtx, cancelledNow = mchild, false
 			}
-			if e.Ctx == nil || e.Ctx.Value(markerKey{}) != interface{}(want) {
+			want := markerOf(wantCtx)
+			if e.Ctx == nil || e.Ctx.Value(markerKey{}) != wantCtx.Value(markerKey{}) {
 				return fmt.Sprintf("the caller's context was cancelled in flight (at driver call %d): driver call %s received a context with marker %s, want %s\n  driver events:\n%s",
 					c.Mid, e.String(), markerOf(e.Ctx), want, renderEvents(evs)), stmts, nil
 			}
@@ -2071,7 +2100,7 @@ func checkCase(c Case) (msg string, stmts int, herr error) {
 const rule = "C18: a program = handle bound by WithContext / Session{Context} (also re-bound over another context, derived by Session{} / Session{NewDB}), " +
 	"PrepareStmt off / Config / Session{PrepareStmt} before, with, after the binding or on the innermost handle (optionally with the statement cache filled by the same program under another context), " +
 	"optionally a child handle forked from the bound or the innermost handle by Session{Context, Initialized, NewDB, PrepareStmt, SkipHooks in any mix} / WithContext with a context of its own (alive, or cancelled while the parent's lives; alive while the parent's is dead) or inheriting, used before / after the parent's part or not at all, each handle judged against its own context, " +
-	"the caller's context a plain value context or one with its own cancellation / timeout / far deadline, SkipDefaultTransaction on/off, none / Transaction blocks / manual Begin at depth 0..2 with levels committing or rolling back, hooks issuing a statement through their tx, " +
+	"the caller's (and a forked child's) context a plain value context, one with its own cancellation / timeout / far deadline, or the literal context.Background() / context.TODO() (re-binding to them must drop the old context: no marker, no deadline, never done, also after the old context is cancelled), SkipDefaultTransaction on/off, none / Transaction blocks / manual Begin at depth 0..2 with levels committing or rolling back, hooks issuing a statement through their tx, " +
 	"Config / dialector switches (RETURNING on/off, DisableNestedTransaction, FullSaveAssociations, TranslateError, QueryFields, CreateBatchSize), plugin callbacks and a SetupJoinTable join model with a hook issuing statements, Session{Initialized} as the bound handle, derivations by Session{SkipHooks / SkipDefaultTransaction / DisableNestedTransaction / AllowGlobalUpdate+QueryFields}, Begin / Transaction with *sql.TxOptions, blocks that panic, explicit SavePoint / RollbackTo, " +
 	"Connection, AutoMigrate / Migrator().CreateTable+DropTable, Create from map / []map / []*T / with Select / Omit, Updates(map, also with a belongs-to value) / UpdateColumn(s), clause.Returning on Update / Delete, Delete by ids / conditions / nested Select, Scopes, handles passed as arguments (sub-query, Table sub-query, join condition; built from a handle bound to another context), InnerJoins, a preload through an embedded struct, Count-then-Find on one Session value, Find into maps, Raw().Rows()/Row(), association mode on a slice of owners, " +
 	"and 1-2 operations out of create / create-slice / CreateInBatches / Updates / Model.Update / Save (update, fallback, new, slice) with association graphs (belongs-to, has-one, has-many, nested, many2many, polymorphic; FullSaveAssociations), " +
